@@ -148,9 +148,13 @@ func (p *PropertySchema) Unserialize(data any) (any, error) {
 }
 
 func (p *PropertySchema) ValidateCompatibility(typeOrData any) error {
+	return p.validateCompatibilityIn(typeOrData, comparedObjects{})
+}
+
+func (p *PropertySchema) validateCompatibilityIn(typeOrData any, compared comparedObjects) error {
 	schemaType, ok := typeOrData.(*PropertySchema)
 	if ok {
-		if err := p.TypeValue.ValidateCompatibility(schemaType.TypeValue); err != nil {
+		if err := validateCompatibilityIn(p.TypeValue, schemaType.TypeValue, compared); err != nil {
 			return err
 		}
 		if schemaType.Required() {
@@ -159,7 +163,7 @@ func (p *PropertySchema) ValidateCompatibility(typeOrData any) error {
 		}
 		return nil
 	}
-	err := p.TypeValue.ValidateCompatibility(typeOrData)
+	err := validateCompatibilityIn(p.TypeValue, typeOrData, compared)
 	if err != nil {
 		if p.DisplayValue != nil && p.Display().Name() != nil {
 			return &ConstraintError{
